@@ -29,11 +29,15 @@ static WEAKED: AtomicU64 = AtomicU64::new(0);
 static LINK_TAG: AtomicU64 = AtomicU64::new(0);
 /// pop_edges moves its edges out with swap(null) instead of take()
 static POP_VIA_SWAP: AtomicU64 = AtomicU64::new(0);
+/// pop_edges hands nothing back (chain-stack only: every node then costs its own grace period)
+static POP_NOTHING: AtomicU64 = AtomicU64::new(0);
+/// right spines continue through the *third* edge of each node
+static THIRD_EDGE: AtomicU64 = AtomicU64::new(0);
 
 /// `W` words of inline payload (0, or 128 = 1 KiB: the payload must not end up on the stack of
 /// the recursive destructor)
 pub struct CNode<const W: usize> {
-    next: [AtomicRc<CNode<W>>; 2],
+    next: [AtomicRc<CNode<W>>; 3],
     id: u64,
     #[allow(dead_code)]
     pad: [u64; W],
@@ -41,13 +45,20 @@ pub struct CNode<const W: usize> {
 
 unsafe impl<const W: usize> RcObject for CNode<W> {
     fn pop_edges(&mut self, out: &mut Vec<Rc<Self>>) {
+        if POP_NOTHING.load(Relaxed) != 0 {
+            // "It does not need to take all the edges": they are then released one by one when
+            // the payload is dropped, each through its own deferred attempt
+            return;
+        }
         if POP_VIA_SWAP.load(Relaxed) != 0 {
             // the other way of moving an edge out: what comes back is the link as it was written
             out.push(self.next[0].swap(Rc::null(), SeqCst));
             out.push(self.next[1].swap(Rc::null(), SeqCst));
+            out.push(self.next[2].swap(Rc::null(), SeqCst));
         } else {
             out.push(self.next[0].take());
             out.push(self.next[1].take());
+            out.push(self.next[2].take());
         }
     }
 }
@@ -211,6 +222,7 @@ pub fn gen(prop: &str, seed: u64, stack: bool) -> RunDesc {
             _ => 1 + rng.below(6000),
         }
     };
+    let (n, shape) = if stack && Rng::new(seed ^ 0x9A7).chance(0.2) { (*Rng::new(seed ^ 0x9A8).pick(&[1000u64, 2000]), 0) } else { (n, shape) };
     let age = if stack { 4 + rng.below(4) } else { *rng.pick(&[0u64, 1, 2, 3, 4, 5, 6, 8, 12, 13, 14, 15, 16, 17, 20, 30, 33, 40]) };
     let writer = rng.below(4); // 0 From<Rc> (stamp 0), 1 store, 2 swap, 3 compare_exchange
     let hold = if !stack && shape < 5 && n > 2 && rng.chance(0.4) {
@@ -258,6 +270,8 @@ pub fn gen(prop: &str, seed: u64, stack: bool) -> RunDesc {
         .set("drop_in_tls", drop_in_tls)
         .set("link_tag", link_tag)
         .set("pop_via_swap", Rng::new(seed ^ 0x5A9).chance(0.25))
+        .set("third_edge", SHAPES[shape as usize] == "right-spine" && Rng::new(seed ^ 0x3E).chance(0.5))
+        .set("pop_nothing", stack && Rng::new(seed ^ 0x9A7).chance(0.2))
         .set("revive_head", if SHAPES[shape as usize] == "right-spine" && !stack && Rng::new(seed ^ 0x5E).chance(0.6) { 0 } else { revive_head })
         .set("shared_sentinel", SHAPES[shape as usize] == "right-spine" && !stack && Rng::new(seed ^ 0x5E).chance(0.6))
         .set("noise_only_advances", advancers_only)
@@ -311,9 +325,9 @@ fn node<const W: usize>(id: u64, c0: Rc<CNode<W>>, c1: Rc<CNode<W>>, writer: u64
 fn node_inner<const W: usize>(id: u64, c0: Rc<CNode<W>>, c1: Rc<CNode<W>>, writer: u64) -> Rc<CNode<W>> {
     CREATED.fetch_add(1, Relaxed);
     if writer == 0 {
-        Rc::new(CNode { next: [AtomicRc::from(c0), AtomicRc::from(c1)], id, pad: [id; W] })
+        Rc::new(CNode { next: [AtomicRc::from(c0), AtomicRc::from(c1), AtomicRc::null()], id, pad: [id; W] })
     } else {
-        let r = Rc::new(CNode { next: [AtomicRc::null(), AtomicRc::null()], id, pad: [id; W] });
+        let r = Rc::new(CNode { next: [AtomicRc::null(), AtomicRc::null(), AtomicRc::null()], id, pad: [id; W] });
         if !c0.is_null() {
             link(&r, 0, c0, writer);
         }
@@ -361,7 +375,18 @@ fn build<const W: usize>(shape: &str, n: u64, writer: u64, hold_at: i64, weak_at
                 // (with a sentinel: the first edge of every spine node leads to one shared node that
                 // stays owned elsewhere)
                 let other = if sentinel.is_null() { Rc::null() } else { sentinel.clone() };
-                head = if right { node(i, other, head, writer) } else { node(i, head, other, writer) };
+                head = if right && THIRD_EDGE.load(Relaxed) != 0 {
+                    // n-ary nodes: the structure goes on through the third edge
+                    let r = node(i, other, Rc::null(), writer);
+                    if !head.is_null() {
+                        link(&r, 2, head, if writer == 0 { 1 } else { writer });
+                    }
+                    r
+                } else if right {
+                    node(i, other, head, writer)
+                } else {
+                    node(i, head, other, writer)
+                };
             }
             (head, held)
         }
@@ -537,6 +562,7 @@ fn destroyer<const W: usize>(desc: &RunDesc, out: &mut Vec<(String, String)>, fa
     DROP_IN_TLS.store(p.getu("drop_in_tls"), Relaxed);
     LINK_TAG.store(p.getu("link_tag"), Relaxed);
     POP_VIA_SWAP.store(p.getb("pop_via_swap") as u64, Relaxed);
+    THIRD_EDGE.store(p.getb("third_edge") as u64, Relaxed);
     REVIVE.store(p.getu("revive_head"), Relaxed);
     let stack_check = p.getb("stack_check");
     // With other threads around, a cascade may run on (and re-defer into the local bag of) a
@@ -572,6 +598,7 @@ fn destroyer<const W: usize>(desc: &RunDesc, out: &mut Vec<(String, String)>, fa
         STACK_MAX.store(0, Relaxed);
         MAX_DEPTH_SEEN.store(0, Relaxed);
     }
+    POP_NOTHING.store(p.getb("pop_nothing") as u64, Relaxed);
     user_yield();
     let weak_at: Vec<u64> = p.geta("weak_positions").iter().filter_map(|x| x.as_u64()).collect();
     let mut weaks: Vec<(u64, circ::Weak<CNode<W>>)> = Vec::new();
@@ -590,7 +617,7 @@ fn destroyer<const W: usize>(desc: &RunDesc, out: &mut Vec<(String, String)>, fa
         round();
     }
     user_yield();
-    let max_rounds = 40 * bound(total) + 200;
+    let max_rounds = if p.getb("pop_nothing") { 5 * total + 400 } else { 40 * bound(total) + 200 };
     if !held.is_null() && p.getb("mid_reader") {
         let h = hold_at as u64;
         let me = sched::my_tid();
